@@ -291,10 +291,20 @@ func moduleDir(repo, pkg string) (dir, pattern string) {
 	return repo, "." + rel
 }
 
-var ordRe = regexp.MustCompile(`\[\d+(:|\])`)
+var ordRe = regexp.MustCompile(`\[(\d+)(:|\])`)
 
-// normOb drops the ordinals of calls, loops and safety sites from an obligation name.
-func normOb(n string) string { return ordRe.ReplaceAllString(n, "[$1") }
+// normOb drops the ordinals of calls, loops and safety sites from an obligation name; sites
+// inside a function that is executed inline (ordinals from 1000) stay apart from the
+// function's own sites.
+func normOb(n string) string {
+	return ordRe.ReplaceAllStringFunc(n, func(m string) string {
+		sm := ordRe.FindStringSubmatch(m)
+		if len(sm[1]) >= 4 {
+			return "[inl" + sm[2]
+		}
+		return "[" + sm[2]
+	})
+}
 
 func cmdCheck(args []string) int {
 	fs := flag.NewFlagSet("check", flag.ExitOnError)
@@ -464,8 +474,39 @@ func runCheck(o *Options) (int, *Evidence) {
 	var funcs []string
 	var trusted []string
 	var orphans []string
+	// signatures recorded with the baseline: a contract whose function has another signature now
+	// is stale - its pre- and post-conditions name the wrong things. The function is then treated
+	// like one without contract (executed inline where it is called, with its loop invariants).
+	sigFile := filepath.Join(o.verif, "specs", "baseline", "signatures.json")
+	recorded := map[string]string{}
+	if b, err := os.ReadFile(sigFile); err == nil {
+		_ = json.Unmarshal(b, &recorded)
+	}
+	sp.Stale = map[string]*FuncSpec{}
+	var stale []string
+	for _, k := range keys {
+		if fi := prog.funcs[k]; fi != nil && fi.obj != nil {
+			cur := fi.obj.Type().String()
+			if o.writeBaseline {
+				recorded[k] = cur
+			} else if was, ok := recorded[k]; ok && was != cur {
+				sp.Stale[k] = sp.Funcs[k]
+				delete(sp.Funcs, k)
+				stale = append(stale, k)
+				fmt.Printf("NOTE contract of %s is stale (signature was %s, is %s): the function is executed inline at its call sites\n", k, was, cur)
+			}
+		}
+	}
+	if o.writeBaseline && o.only == "" {
+		if b, err := json.MarshalIndent(recorded, "", " "); err == nil {
+			_ = os.WriteFile(sigFile, append(b, '\n'), 0o644)
+		}
+	}
 	for _, k := range keys {
 		fsq := sp.Funcs[k]
+		if fsq == nil {
+			continue // stale
+		}
 		fi := prog.funcs[k]
 		if fi == nil {
 			// the function was inlined, renamed or removed: its contract binds nothing any more;
@@ -491,7 +532,16 @@ func runCheck(o *Options) (int, *Evidence) {
 		if fsq.MayDiverge {
 			divergeOK[fi.name()] = true
 		}
-		x := verifyFunc(w, sp, prog, fi, fsq, o.prop)
+		x := func() (x *Exec) {
+			// a construct the generator does not expect must not take the whole run down
+			defer func() {
+				if r := recover(); r != nil {
+					x = &Exec{w: w, sp: sp, prog: prog, fn: fi, spec: fsq, prop: o.prop, decls: map[string]string{}}
+					x.errs = append(x.errs, fmt.Sprintf("%s: internal error while generating conditions: %v", fi.name(), r))
+				}
+			}()
+			return verifyFunc(w, sp, prog, fi, fsq, o.prop)
+		}()
 		execs = append(execs, x)
 		funcs = append(funcs, fi.name())
 		errs = append(errs, x.errs...)
@@ -817,7 +867,13 @@ func runCheck(o *Options) (int, *Evidence) {
 			// function's frame condition, which held (vacuously) before
 			onBase = true
 		}
-		if ob.Status == "failed-unknown" && !onBase {
+		if ob.Kind == "ownership" {
+			onBase = true // an operation on a watched channel moved into a goroutine without contract: decided by construction
+		}
+		if !onBase && (ob.Status == "failed-unknown" || (ob.Status == "failed-sat" && ob.Kind != "safety")) {
+			// unknown: nothing is known. sat on an obligation the unchanged tree did not have: the
+			// model may be a state no run reaches (a loop or callee whose contract moved away with
+			// the code), so it is not a counterexample to the property either
 			undec = append(undec, "UNDISCHARGED "+n+" (not on the baseline list; "+ob.Status+")")
 			continue
 		}
@@ -876,6 +932,7 @@ func runCheck(o *Options) (int, *Evidence) {
 	ev.Coverage["functions_under_contract"] = funcs
 	ev.Coverage["trusted_functions"] = trusted
 	ev.Coverage["contracts_without_function"] = orphans
+	ev.Coverage["stale_contracts"] = stale
 	ev.Coverage["samples"] = samples
 	ev.Coverage["slow_obligations"] = slow
 	ev.Coverage["vacuity_checks"] = len(names) - nOb
